@@ -202,7 +202,7 @@ def gen_matchers(r, good, bad, fail):
             pool.append(p)
     bm = None
     if fail:
-        f = fail if fail != "mixed" else r.choice(["missing", "type", "custom", "nulltype"])
+        f = fail if fail != "mixed" else r.choice(["missing", "missing2", "type", "custom", "nulltype"])
         if f == "nulltype" and "1.b" not in good:
             f = "type"
         if f == "nulltype":
@@ -211,13 +211,27 @@ def gen_matchers(r, good, bad, fail):
                   "errOnMissing": r.choice([True, False]), "stmt": r.chance(1, 2)}
         elif f == "missing":
             bm = {"kind": r.choice(["any", "type", "custom"]), "paths": [r.choice(bad)], "type": "string"}
+        elif f == "missing2":
+            # ONE matcher with several failing paths (and possibly a satisfiable one in between): every one of them is named
+            ps = r.shuffle(list(bad))[:2]
+            if len(ps) == 2 and r.chance(1, 2):
+                cand = [p for p in good if TYPES_OF.get(p) == "string"]
+                if cand:
+                    ps.insert(1, r.choice(cand))
+            bm = {"kind": r.choice(["any", "type"]), "paths": ps, "type": "string", "expect_named": [q for q in ps if q in bad]}
+            if bm["kind"] == "type" and r.chance(1, 2):
+                # ... a value of the wrong type first, then a missing path: both are named
+                cand = [q for q in good if TYPES_OF.get(q) in ("string", "float64") and not any(_overlaps(q, x) for x in ps)]
+                if cand:
+                    q = r.choice(cand)
+                    bm = {"kind": "type", "type": "bool", "paths": [q, ps[0]], "expect_named": [q, ps[0]]}
         elif f == "type":
             p = r.choice([p for p in good if TYPES_OF.get(p)])
             wrong = "bool" if TYPES_OF[p] != "bool" else "string"
             bm = {"kind": "type", "type": wrong, "paths": [p]}
         else:
             bm = {"kind": "custom", "paths": [r.choice(good)], "err": True}
-        pool = [p for p in pool if not _overlaps(p, bm["paths"][0])]
+        pool = [p for p in pool if not any(_overlaps(p, q) for q in bm["paths"])]
     ms = []
     for _ in range(r.range(1, 3)):
         if not pool:
